@@ -1,4 +1,5 @@
 import Crv.Disk
+import Crv.Proofs.Skeleton
 import Crv.Generated.Paths
 import Crv.Proofs.Paths
 import Crv.Proofs.PathsOps
@@ -171,5 +172,15 @@ example : ((List.range 40).map fun k =>
     let fs' := restart pathFacts exId (crashAt k (refreshSteps pathFacts (exScn (.doc { exNew with sigOk := false }))) exFs)
     (probe fs' exId 10, probe fs' exId 12, fs'.names)).eraseDups = [(.revoked, .good, [exId])] := by decide
 end examples
+
+/-- The hand-written `Repo` model this property rests on was transcribed from exactly these sources: the fingerprints are
+recomputed from /repo on every run (tools/extract/skeleton.go), so any change to one of the functions breaks this obligation. -/
+theorem repo_sources_as_transcribed : Crv.Generated.skeletonRepo = Crv.Skeleton.expectedRepo :=
+  Crv.Skeleton.repo_sources_as_transcribed
+
+/-- The hand-written `Store` model this property rests on was transcribed from exactly these sources: the fingerprints are
+recomputed from /repo on every run (tools/extract/skeleton.go), so any change to one of the functions breaks this obligation. -/
+theorem store_sources_as_transcribed : Crv.Generated.skeletonStore = Crv.Skeleton.expectedStore :=
+  Crv.Skeleton.store_sources_as_transcribed
 
 end Crv.Props.C12
